@@ -39,6 +39,10 @@ pub fn jobs(thorough: bool) -> Vec<Job> {
                         continue;
                     }
                     v.push(Job { profile, mode: "synthetic", n, stack, shape });
+                    // the same length with every recorded position occurring exactly twice (a long cycle walked twice)
+                    if n >= 100_000 && (*shape == "sole" || *shape == "clone" || *shape == "shared_ab" || *shape == "twins" || *shape == "other_thread") {
+                        v.push(Job { profile, mode: "synthetic2", n, stack, shape });
+                    }
                 }
             }
         }
@@ -48,7 +52,7 @@ pub fn jobs(thorough: bool) -> Vec<Job> {
 
 pub fn run(prop: &str, thorough: bool) -> (FamilyResult, bool) {
     let t0 = Instant::now();
-    let fam = "E7 child-process ladder: {release, dev} x stack {2 MiB, 256 KiB} x 10 ownership shapes (incl. twins: the same game built twice, compared with ==, hashed, used as HashSet / HashMap keys) x game length N (played: every action from valid_actions(); synthetic: history built with List::append) — clone, query, drop".to_string();
+    let fam = "E7 child-process ladder: {release, dev} x stack {2 MiB, 256 KiB} x 10 ownership shapes (incl. twins: the same game built twice, compared with ==, hashed, used as HashSet / HashMap keys) x game length N (played: every action from valid_actions(); synthetic: history of distinct values built with List::append; synthetic2: every value twice) — clone, query, drop".to_string();
     let base = crate::verif_dir().join("target").join("stackchild");
     let all = jobs(thorough);
     let fam2 = fam.clone();
